@@ -29,6 +29,9 @@ type C13Script struct {
 	Code  int    `json:"code"`  // peer close code
 	After int    `json:"after"` // peerClose/eof/local: the cause happens after this many of the Out+In messages
 	Busy  bool   `json:"busy"`  // traffic continues concurrently while the cause happens
+	// PeerPing: before its n-th message (1-based, 0 = never) the peer sends a websocket ping; the
+	// connection under test answers with a pong, one more write on its socket that can fail
+	PeerPing int `json:"peerPing,omitempty"`
 }
 
 type c13Result struct {
@@ -42,6 +45,7 @@ type c13Result struct {
 	SockCloses    int
 	WsGoroutines  string
 	Herr          string
+	Unreported    string // at a quiescent point after the faulty operation no error had been reported
 }
 
 func runC13(sc C13Script) *c13Result {
@@ -94,6 +98,12 @@ func runC13(sc C13Script) *c13Result {
 	}()
 	var pmu sync.Mutex // gorilla allows one concurrent writer
 	peerSend := func(i int) {
+		if sc.PeerPing > 0 && i+1 == sc.PeerPing {
+			pmu.Lock()
+			_ = cb.WriteControl(websocket.PingMessage, []byte("are you there"), time.Now().Add(5*time.Second))
+			pmu.Unlock()
+			synctest.Wait()
+		}
 		pmu.Lock()
 		_ = cb.SetWriteDeadline(time.Now().Add(5 * time.Second))
 		_ = cb.WriteMessage(websocket.BinaryMessage, payload(1, i, 12))
@@ -134,6 +144,19 @@ func runC13(sc C13Script) *c13Result {
 		if len(errs) > 0 {
 			emu.Lock()
 			ended = true
+			emu.Unlock()
+			return
+		}
+		// called at quiescent points: an I/O operation of the connection that has failed by now has
+		// been dealt with by the pump it belongs to - the error must have been reported, and whatever
+		// the peer sends from here on comes "afterwards"
+		r, w, _ := a.counters()
+		if (sc.Cause == "write" && w-w0 >= sc.K) || (sc.Cause == "read" && r-r0 >= sc.K) {
+			emu.Lock()
+			ended = true
+			if res.Unreported == "" {
+				res.Unreported = fmt.Sprintf("%d reads, %d writes done", r-r0, w-w0)
+			}
 			emu.Unlock()
 		}
 	}
@@ -298,6 +321,9 @@ func judgeC13(t *testing.T, sc C13Script) (key, msg string, res *c13Result) {
 			return "C13/error-after-local-close", fmt.Sprintf("%s: a deliberate local close was reported as connection error %q", what, res.Errors[0]), res
 		}
 	} else {
+		if res.Unreported != "" && !sc.Busy {
+			return "C13/failure-not-reported-at-once", fmt.Sprintf("%s: the faulty operation had taken place (%s) and everything had come to rest, but no connection error had been reported (the connection went on as if nothing had happened)", what, res.Unreported), res
+		}
 		if len(res.Errors) == 0 {
 			return "C13/no-error-report", fmt.Sprintf("%s: the transport failed / the peer closed but ReportConnectionError was never called", what), res
 		}
@@ -335,6 +361,9 @@ func genC13Session(t *rapid.T) C13Script {
 		Busy: rapid.IntRange(0, 2).Draw(t, "busy") == 0,
 	}
 	sc.After = rapid.IntRange(0, sc.Out+sc.In).Draw(t, "after")
+	if sc.In > 0 && rapid.IntRange(0, 2).Draw(t, "peerPings") == 0 {
+		sc.PeerPing = rapid.IntRange(1, sc.In).Draw(t, "peerPing")
+	}
 	return sc
 }
 
